@@ -141,6 +141,9 @@ class Model:
             parsed[name] = (path, src, tree)
         # helpers the pinned tree does not know are inlined (normalise.py)
         from . import normalise
+        # renamed / moved functions and renamed attributes are mapped back
+        # to the names of the pinned tree first
+        self.aliases = normalise.map_back({k: v[2] for k, v in parsed.items()})
         self.norm = normalise.Normaliser(
             {k: v[2] for k, v in parsed.items()},
             normalise.known_functions()).run()
@@ -219,6 +222,7 @@ class Model:
 
     def _index_func(self, m, node, cls, prefix, parent=None):
         qual = '%s.%s' % (prefix, node.name)
+        qual = self.aliases.moved.get(qual, qual)
         fi = FuncInfo(qual, node, m.name, cls, parent)
         if fi.is_setter:
             self.funcs[qual + '.setter'] = fi
